@@ -305,6 +305,34 @@ class Sandbox:
             data = gzip.compress(json.dumps(doc).encode())
             # the library documents best-effort parsing: such a file may be refused or may be taken for a cache
             self.dubious = getattr(self, 'dubious', set()) | {hashlib.sha256(data).hexdigest()}
+        elif how == 'bad_entry' and doc is not None:
+            # the right shape except for one entry that cannot be what it stands for: a created directory whose name
+            # no os call accepts (NUL, lone surrogate), versions that are not an object, arguments of a recorded
+            # query that are not a list (D38) - such a file has to be refused, it is not marked dubious
+            def first_simple(ops):
+                for o in ops:
+                    if isinstance(o, dict):
+                        if o.get('type') not in ('build_file', 'subbuild'):
+                            return o
+                        r = first_simple(o.get('suboperations') or [])
+                        if r is not None:
+                            return r
+                return None
+            v = arg % 6
+            so = first_simple(doc.get('rootOperations') or [])
+            if v == 0:
+                doc['createdDirs'] = list(doc.get('createdDirs') or []) + [os.path.join(self.root, 'a\x00b')]
+            elif v == 1:
+                doc['createdDirs'] = [os.path.join(self.root, 'zz\ud800')] + list(doc.get('createdDirs') or [])
+            elif v == 2:
+                doc['funcVersions'] = [['f0a', 1]]
+            elif v == 3:
+                doc['operationVersions'] = 3
+            elif so is not None:
+                so['args'] = 'x' if v == 4 else {'a': 1}
+            else:
+                doc['createdDirs'] = ['\x00']
+            data = gzip.compress(json.dumps(doc).encode())
         elif how == 'other_name' and doc is not None:
             doc['buildName'] = 'another build'
             data = gzip.compress(json.dumps(doc).encode())
